@@ -118,6 +118,9 @@ package tubes
 //@   property C11 C08
 //@   atomic
 //@   modifies s.ackNo, s.frames, s.unacked, s.RTT, s.RTO, s.senderWindow.cwndSize, s.senderWindow.state, s.senderWindow.duplicatedAckCounter, s.senderWindow.ssThresh, s.senderWindow.windowSize, opaque(s)
+// (C08) recvAck stops the retransmission ticker while it measures; every accepted acknowledgement - whether or not it
+// made progress - re-arms it before returning, so a frame lost after a duplicate or stale ACK is still retransmitted
+//@   ensures err == nil ==> callcount(tubes.sender.resetRetransmitTicker) == 1
 //@   loop 1
 //@     invariant s.ackNo <= newAckNo ==> newAckNo - s.ackNo <= uint64(len(s.frames))
 //@     invariant forall i int :: 0 <= i && i < len(s.frames) ==> s.frames[i].frame != nil
@@ -145,11 +148,14 @@ package tubes
 //@ func (m *Muxer) makeReliableTubeWithID(tType TubeType, tubeID byte, req bool) (t *Reliable, err error)
 //@   assume tube construction (allocates a tube, registers it in the muxer's table, starts its goroutines); does not touch the frame being dispatched or the receive buffer
 //@   requires req ==> !has(m.reliableTubes, tubeID)
+// (C09) a tube is created on the peer's behalf (req false) only for an initiate frame that IS a request: a late or duplicated RESP creates nothing
+//@   requires req || (called(tubes.fromInitiateBytes) && resultof(tubes.fromInitiateBytes, f).flags.REQ)
 //@   modifies opaque(m)
 //@   ensures err == nil ==> t != nil
 //@ func (m *Muxer) makeUnreliableTubeWithID(tType TubeType, tubeID byte, req bool) (t *Unreliable, err error)
 //@   assume tube construction (as above)
 //@   requires req ==> !has(m.unreliableTubes, tubeID)
+//@   requires req || (called(tubes.fromInitiateBytes) && resultof(tubes.fromInitiateBytes, f).flags.REQ)
 //@   modifies opaque(m)
 //@   ensures err == nil ==> t != nil
 // Opening a tube locally: the id is chosen for the kind of tube that is then made, with this side's parity, as a request.
